@@ -142,12 +142,24 @@ def root_path(prog, body):
     return body.path
 
 
+def strip_closures(path):
+    import re
+    return re.sub(r"(::\{closure#\d+\})+", "", path)
+
+
 def panic_sites(prog, chk, reach):
     sites = panics.inventory(prog, reach)
     table = load_table("panic_allow.json")
     allow = {}
     for e in table:
-        allow[(e["function"], e["kind"], e.get("callee", ""))] = dict(e, used=0)
+        # closures are matched through their enclosing function: `{closure#N}` is positional and renumbered by
+        # behaviour-preserving edits
+        k = (strip_closures(e["function"]), e["kind"], e.get("callee", ""))
+        if k in allow:
+            allow[k]["count"] += e["count"]
+            allow[k]["reason"] += " / " + e["reason"]
+        else:
+            allow[k] = dict(e, used=0)
     n_rule = n_table = 0
     for s in sites:
         body = s.body
@@ -217,7 +229,8 @@ def panic_sites(prog, chk, reach):
                 why = "D3 " + w
         # --- reviewed table
         if why is None:
-            ent = allow.get((body.path, s.kind, s.what)) or allow.get((body.path, s.kind, s.decl)) or allow.get((body.path, s.kind, ""))
+            fp = strip_closures(body.path)
+            ent = allow.get((fp, s.kind, s.what)) or allow.get((fp, s.kind, s.decl)) or allow.get((fp, s.kind, ""))
             if ent is not None and ent["used"] < ent["count"]:
                 ent["used"] += 1
                 why = "D6 reviewed: " + ent["reason"]
